@@ -102,6 +102,45 @@ pub enum Node {
 pub enum ExtractorKind {
     ValueOf,
     IdLens,
+    /// a harness lens that reads the rule's probe type but names its entry like probe type `T0`
+    /// (two rules with the same name and different sources)
+    AliasT0,
+}
+
+/// Reads probe type `T`, names the entry like `ValueOf<T0>`.
+pub struct AliasLens<T>(std::marker::PhantomData<fn() -> T>);
+impl<T> Clone for AliasLens<T> {
+    fn clone(&self) -> Self {
+        AliasLens(std::marker::PhantomData)
+    }
+}
+impl<T> Serialize for AliasLens<T> {
+    fn serialize<S: Serializer>(&self, s: S) -> Result<S::Ok, S::Error> {
+        s.serialize_unit_struct("AliasLens")
+    }
+}
+impl<T: Probe> mahf::lens::AnyLens for AliasLens<T> {
+    type Target = u32;
+}
+impl<T: Probe> mahf::lens::LensMap for AliasLens<T> {
+    type Source = T;
+    fn map(&self, source: &T) -> u32 {
+        source.val()
+    }
+}
+impl<T> mahf::logging::extractor::EntryName for AliasLens<T> {
+    fn entry_name() -> &'static str {
+        std::any::type_name::<T0>()
+    }
+}
+
+/// The entry name a rule logs under.
+pub fn rule_name(r: &Rule) -> &'static str {
+    if r.kind == ExtractorKind::AliasT0 && r.t != TAG_IT {
+        type_name_of(0)
+    } else {
+        type_name_of(r.t)
+    }
 }
 
 #[derive(Clone, Debug, PartialEq, Serialize, Deserialize)]
@@ -381,14 +420,25 @@ fn hook_enter(id: u32, phase: Phase) -> ExecResult<()> {
 
 fn scope_init<const K: u8>(state: &mut State<EP>) -> ExecResult<()> {
     hook_enter(HOOK_INIT_ID + K as u32, Phase::Init)?;
-    state.insert(T5(500 + K as u32));
+    // even hooks put a value into the child (copied into the parent by the merge), odd hooks
+    // leave the child as it is (their merge does not look at it); hooks 3 and 7 seed a pass counter
+    if K % 2 == 0 {
+        state.insert(T5(500 + K as u32));
+    }
+    if K % 4 == 3 {
+        state.insert(Iterations(7));
+    }
     Ok(())
 }
 
 fn scope_merge<const K: u8>(parent: &mut State<EP>, child: State<EP>) -> ExecResult<()> {
     hook_enter(HOOK_MERGE_ID + K as u32, Phase::Exec)?;
-    if let Ok(v) = child.try_get_value::<T5>() {
-        parent.insert(T4(v));
+    if K % 2 == 0 {
+        if let Ok(v) = child.try_get_value::<T5>() {
+            parent.insert(T4(v));
+        }
+    } else {
+        parent.insert(T4(700 + K as u32));
     }
     Ok(())
 }
@@ -520,13 +570,14 @@ pub fn type_name_of(t: u8) -> &'static str {
 fn extractor_of(r: &Rule) -> Box<dyn mahf::logging::extractor::EntryExtractor<EP>> {
     if r.t == TAG_IT {
         match r.kind {
-            ExtractorKind::ValueOf => ValueOf::<Iterations>::entry(),
+            ExtractorKind::ValueOf | ExtractorKind::AliasT0 => ValueOf::<Iterations>::entry(),
             ExtractorKind::IdLens => IdLens::<Iterations>::entry(),
         }
     } else {
         with_ty!(r.t, T => match r.kind {
             ExtractorKind::ValueOf => ValueOf::<T>::entry(),
             ExtractorKind::IdLens => IdLens::<T>::entry(),
+            ExtractorKind::AliasT0 => Box::new(AliasLens::<T>(std::marker::PhantomData)),
         })
     }
 }
@@ -841,7 +892,12 @@ impl<'p> Interp<'p> {
                     let r = (|| {
                         if let Some(k) = hooks {
                             self.enter(HOOK_INIT_ID + (*k % 8) as u32, Phase::Init)?;
-                            self.model.top().insert(5, 500 + (*k % 8) as u64);
+                            if k % 2 == 0 {
+                                self.model.top().insert(5, 500 + (*k % 8) as u64);
+                            }
+                            if k % 4 == 3 {
+                                self.model.top().insert(TAG_IT, 7);
+                            }
                         }
                         self.init_nodes(body)?;
                         self.require_nodes(body)?;
@@ -854,8 +910,15 @@ impl<'p> Interp<'p> {
                     if let Some(k) = hooks {
                         self.probe("scope with state-init and merge hooks");
                         self.enter(HOOK_MERGE_ID + (*k % 8) as u32, Phase::Exec)?;
-                        if let Some(v) = child.get(&5) {
-                            self.model.top().insert(4, *v);
+                        if k % 2 == 0 {
+                            if let Some(v) = child.get(&5) {
+                                self.model.top().insert(4, *v);
+                            }
+                        } else {
+                            if child.is_empty() {
+                                self.probe("merge hook after a body that left the child scope empty");
+                            }
+                            self.model.top().insert(4, 700 + (*k % 8) as u64);
                         }
                     }
                 }
@@ -867,11 +930,14 @@ impl<'p> Interp<'p> {
                                 let mut step: Vec<(String, Option<u64>)> = Vec::new();
                                 for r in rules {
                                     if me.cond_eval(&r.trigger)? {
-                                        let name = type_name_of(r.t).to_string();
-                                        if !step.iter().any(|(n, _)| *n == name) {
-                                            step.push((name, me.model.get(r.t)));
-                                        } else {
+                                        let name = rule_name(r).to_string();
+                                        if let Some((_, first)) = step.iter().find(|(n, _)| *n == name) {
+                                            if *first != me.model.get(r.t) {
+                                                me.probe("duplicate entry name with another value dropped");
+                                            }
                                             me.probe("duplicate entry name dropped");
+                                        } else {
+                                            step.push((name, me.model.get(r.t)));
                                         }
                                     }
                                 }
